@@ -121,6 +121,24 @@ Definition z_2 (f : Z * Z -> Z * Z -> val -> verdict) (args : list val) (out : v
 Definition inst_eqb (a b : Z * Z) : bool := (fst a =? fst b) && (snd a =? snd b).
 Definition inst_cmp (a b : Z * Z) : Z := cmp_lex [fst a; snd a] [fst b; snd b].
 
+(** the derived and provided accessors of the wall clock reported by [z.prov]: common-era year,
+    quarter, day number, length of the month, 12-hour clock, seconds from midnight, 0-based ISO week *)
+Definition exp_prov (w : Z) : val :=
+  let dn := w / DAY in let sod := w mod DAY in
+  let '(y, m, d) := ymd_of_dn dn in
+  let '(iy, iw) := iso_of_dn dn in
+  let h := sod / 3600 in
+  VTup [val_of_bool (1 <=? y); VInt (if 1 <=? y then y else 1 - y); VInt ((m - 1) / 3 + 1); VInt dn;
+        VInt (days_in_month (is_leap y) m); val_of_bool (12 <=? h);
+        VInt (if h mod 12 =? 0 then 12 else h mod 12); VInt sod; VInt (iw - 1)].
+(** comparison operators between two zone-aware values (same or different zone types): all of them
+    read the order of the instants *)
+Definition exp_pcmp (a b : Z * Z) : val :=
+  let c := inst_cmp a b in let e := inst_eqb a b in
+  VTup [VSome (VInt c); VSome (VInt c); val_of_bool e; val_of_bool (negb e);
+        val_of_bool (c =? -1); val_of_bool (c <=? 0); val_of_bool (c =? 1); val_of_bool (0 <=? c);
+        val_of_bool (c =? -1); val_of_bool (0 <=? c)].
+
 Definition judge (op : bytes) (args : list val) (out : val) : verdict :=
   if op_is op "z.east" then
     match args with
@@ -232,5 +250,50 @@ Definition judge (op : bytes) (args : list val) (out : val) : verdict :=
               else judge_eq (VTup []) out
             else JSkip
         | None => JSkip end
+    | _ => JSkip end
+  else if op_is op "z.opmonths" then
+    (* the operator form: the value of the checked form, PANIC where that reports nothing *)
+    match args with
+    | [a; VInt sign; VInt n] =>
+        match z_of_arg a with
+        | Some (u, f, off) =>
+            if ((sign =? 1) || (sign =? -1)) && in_u32 n then
+              let w := u + off in
+              let '(y, m, d) := ymd_of_dn (w / DAY) in
+              let tot := y * 12 + (m - 1) + sign * n in
+              let y' := tot / 12 in let m' := tot mod 12 + 1 in
+              let d' := Z.min d (days_in_month (is_leap y') m') in
+              moved (fun v => v) VPanic u off (dn_of_ymd y' m' d' * DAY + w mod DAY) f out
+            else JSkip
+        | None => JSkip end
+    | _ => JSkip end
+  else if op_is op "z.conv" then z_1 (fun u f _ => VTup [enc_z u f 0; enc_z u f 0]) args out
+  else if op_is op "z.pcmp" then z_2 (fun a b o => judge_eq (exp_pcmp a b) o) args out
+  else if op_is op "z.uml" then
+    match args with
+    | [VInt s] => if off_ok s then judge_eq (VTup [VInt (- s); VInt s]) out else JSkip
+    | _ => JSkip end
+  else if op_is op "z.prov" then z_1 (fun u _ off => exp_prov (u + off)) args out
+  else if op_is op "z.peast" then
+    match args with
+    | [VInt s] => if in_i32 s then judge_eq (if off_ok s then VInt s else VPanic) out else JSkip
+    | _ => JSkip end
+  else if op_is op "z.pwest" then
+    match args with
+    | [VInt s] => if in_i32 s then judge_eq (if off_ok s then VInt (- s) else VPanic) out else JSkip
+    | _ => JSkip end
+  else if op_is op "z.mk" then
+    match args with
+    | [o; n] => match off_of_arg o, naive_of_arg n with
+                | Some off, Some (u, f) => judge_eq (VTup [enc_z u f off; VInt off; enc_z u f off]) out
+                | _, _ => JSkip end
+    | _ => JSkip end
+  else if op_is op "z.pfromlocal" then
+    (* the panicking construction from a wall-clock reading: the instant is the reading minus the
+       offset; PANIC exactly when that instant is outside the supported range *)
+    match args with
+    | [o; n] => match off_of_arg o, naive_of_arg n with
+                | Some off, Some (l, f) => judge_eq (if in_rng (l - off) then enc_z (l - off) f off else VPanic) out
+                | _, _ => JSkip end
     | _ => JSkip end
   else JSkip.
